@@ -156,6 +156,17 @@ fn run(e: &Engine) {
         },
         execdiff::check,
     );
+    // 2^8 and 2^16 data elements in one unit (the handler is offered every one of them, the next unit none)
+    if !cfg!(debug_assertions) {
+        use crate::bytes::B;
+        let mut big: Vec<D> = Vec::new();
+        for n in [255u32, 256, 257, 65_535, 65_536, 65_537, 70_000] {
+            big.push(D::Repeat { head: B(b"B:C 0".to_vec()), item: B(b",1".to_vec()), n, tail: B(b";D? 5".to_vec()) });
+            big.push(D::Repeat { head: B(b"A 'a'".to_vec()), item: B(b" , #11x".to_vec()), n, tail: B(b";A (1,2);*X".to_vec()) });
+            big.push(D::Repeat { head: B(b"*X;A ABC".to_vec()), item: B(b",DEF".to_vec()), n, tail: B(b"\n".to_vec()) });
+        }
+        e.fixed("bytes-differential-2^8-and-2^16-data-elements", big, execdiff::check);
+    }
     for l in ["arity: missing parameter expected", "arity: surplus parameter expected"] {
         if !e.replay_only && !e.failed() && e.label_count(l) < 1000 {
             e.harness_error(format!("generator unhealthy: only {} cases labelled {l:?}", e.label_count(l)));
